@@ -1,11 +1,198 @@
-import PocketModel.Store.IavlProof
+import Proofs.Store.IavlProof
 /-!
 # C05 — Existence and absence proofs are sound and complete
+
+Model: `PocketModel/Store/IavlProof.lean` — prover (`pathToLeaf`, `getRangeProof` with its traversal
+callback, `GetWithProof`, the `prove=true` branch of `Store.Query`), verifier (`COMPUTEHASH`,
+`VerifyItem`, `VerifyAbsence`, `ValueOp.Run`, `AbsenceOp.Run`), `MultiStoreProofOp.Run` and
+`CommitInfo.Hash`, all parametric in the hash function `H` and the hashed byte layout `enc`.
+`Fixes` selects the code as it is (`Fixes.none`) or with the repairs of `/verif/fixes/C05-*.patch`.
+
+Assumptions, always explicit: `EncInj enc` / `KVInj encKV` (the amino layouts determine their fields),
+`HNonEmpty H` and `HLen H` (hash outputs are non-empty and of one length); hash collisions are a
+disjunct of every soundness statement, carrying the two colliding preimages.
+
+What is *not* proved: completeness for an absent key strictly between two stored keys (the two-leaf
+proof built by the traversal callback); it is covered by the differential tie only.
 -/
 namespace C05
 open IavlProof
 
-/-- `cpIncr` of an all-0xFF key sorts below the key: `getRangeProof` panics for it. -/
-theorem cpIncr_ff_wraps : cpIncr [0xff] = [0, 0] ∧ cpIncr [0xff] < [0xff] := by decide
+variable (H : Bytes → Bytes) (enc : Int → Int → Int → Bytes → Bytes → Bytes) (encKV : Bytes → Bytes → Bytes)
+
+/-! ## Completeness -/
+
+/-- **value_complete.** For a stored key the prover returns its value with a proof that `ValueOp`
+accepts and that yields the tree's root hash.  (As is, `key < nextKey key` fails exactly for keys made
+of 0xFF bytes; with the successor-key repair it always holds: `value_complete_fixed`.) -/
+theorem value_complete (fx : Fixes) (hne : HNonEmpty H) (t : Tree) (hw : WF t) (k v : Bytes)
+    (hf : t.find k = some v) (hk : k < nextKey fx k) :
+    ∃ p, queryProof H enc fx (some t) k = some (some v, some p) ∧
+      valueOpRun H enc fx (some p) k [v] = .ok [Tree.hash H enc t] :=
+  value_complete' H enc fx hne t hw k v hf hk
+
+theorem value_complete_fixed (fx : Fixes) (hfx : fx.succKey = true) (hne : HNonEmpty H) (t : Tree) (hw : WF t)
+    (k v : Bytes) (hf : t.find k = some v) :
+    ∃ p, queryProof H enc fx (some t) k = some (some v, some p) ∧
+      valueOpRun H enc fx (some p) k [v] = .ok [Tree.hash H enc t] :=
+  value_complete' H enc fx hne t hw k v hf (by simp [nextKey, hfx, lt_succ])
+
+example : WF (t2 [1] [2]) ∧ (t2 [1] [2]).find kb = some [2] ∧ kb < nextKey Fixes.none kb :=
+  ⟨wf_t2 _ _, by decide, by decide⟩
+
+/-- **absence_complete**, key below the first leaf. -/
+theorem absence_complete_below (fx : Fixes) (hne : HNonEmpty H) (t : Tree) (hw : WF t) (key : Bytes)
+    (hb : ∀ e ∈ t.leaves, key < e.1) (hk : key < nextKey fx key)
+    (hstop : nextKey fx key ≤ nextKey fx t.first.1) :
+    ∃ p, queryProof H enc fx (some t) key = some (none, some p) ∧
+      absenceOpRun H enc fx (some p) key [] = .ok [Tree.hash H enc t] :=
+  absence_complete_below' H enc fx hne t hw key hb hk hstop
+
+/-- **absence_complete**, key above the last leaf. -/
+theorem absence_complete_above (fx : Fixes) (hne : HNonEmpty H) (t : Tree) (hw : WF t) (key : Bytes)
+    (ha : ∀ e ∈ t.leaves, e.1 < key) (hk : key < nextKey fx key) (hl : t.last.1 < nextKey fx t.last.1) :
+    ∃ p, queryProof H enc fx (some t) key = some (none, some p) ∧
+      absenceOpRun H enc fx (some p) key [] = .ok [Tree.hash H enc t] :=
+  absence_complete_above' H enc fx hne t hw key ha hk hl
+
+/-- with the successor-key repair the side conditions of both cases always hold -/
+theorem absence_complete_fixed (fx : Fixes) (hfx : fx.succKey = true) (hne : HNonEmpty H) (t : Tree) (hw : WF t)
+    (key : Bytes) (h : (∀ e ∈ t.leaves, key < e.1) ∨ (∀ e ∈ t.leaves, e.1 < key)) :
+    ∃ p, queryProof H enc fx (some t) key = some (none, some p) ∧
+      absenceOpRun H enc fx (some p) key [] = .ok [Tree.hash H enc t] := by
+  have hn : ∀ k, nextKey fx k = k ++ [0] := fun k => by simp [nextKey, hfx]
+  rcases h with hb | ha
+  · refine absence_complete_below' H enc fx hne t hw key hb (by rw [hn]; exact lt_succ key) ?_
+    rw [hn, hn]
+    exact Bytes.le_of_lt (Bytes.lt_of_le_of_lt (succ_le_of_lt _ _ (hb _ (first_mem t))) (lt_succ _))
+  · exact absence_complete_above' H enc fx hne t hw key ha (by rw [hn]; exact lt_succ key) (by rw [hn]; exact lt_succ _)
+
+example : (∀ e ∈ (t2 [1] [2]).leaves, e.1 < kc) := by
+  intro e he; simp [t2, Tree.leaves] at he; rcases he with rfl | rfl
+  · show ka < kc; decide
+  · show kb < kc; decide
+
+/-- **Completeness fails on the code as it is** (1): the honest absence proof for `aa` in `{a, ab}` is
+rejected by the verifier. -/
+theorem absence_incomplete (hne : HNonEmpty H) (v1 v2 : Bytes) :
+    ∃ p, queryProof H enc Fixes.none (some (tp v1 v2)) [0x61, 0x61] = some (none, some p) ∧
+      (∃ e, absenceOpRun H enc Fixes.none (some p) [0x61, 0x61] [] = .error e) ∧
+      (∀ e ∈ (tp v1 v2).leaves, e.1 ≠ [0x61, 0x61]) :=
+  absence_incomplete_asis H (enc := enc) hne v1 v2
+
+/-- **Completeness fails on the code as it is** (2): the query panics for a key of 0xFF bytes. -/
+theorem query_panics_on_ff_key (t : Option Tree) : queryProof H enc Fixes.none t [0xff] = none :=
+  query_panics_ff H (enc := enc) t
+
+/-! ## Soundness of the strict verifier (repair `strictNodes`) -/
+
+/-- **value_sound.** An existence proof accepted against the root hash of a well-formed tree states a
+pair the tree stores — or two colliding hash preimages are exhibited.  All proofs `p`, no size bound. -/
+theorem value_sound (hinj : EncInj enc) (hne : HNonEmpty H) (fx : Fixes) (hfx : fx.strictNodes = true)
+    (p : RangeProof) (t : Tree) (hw : WF t) (key value : Bytes)
+    (h : valueOpRun H enc fx (some p) key [value] = .ok [Tree.hash H enc t]) :
+    (∃ ver, (key, value, ver) ∈ t.leaves) ∨ ∃ x y, x ≠ y ∧ H x = H y :=
+  value_sound' H enc hinj hne fx hfx p t hw key value h
+
+/-- **absence_sound.** An absence proof accepted against the root hash of a well-formed tree is about
+a key the tree does not store — or a collision. -/
+theorem absence_sound (hinj : EncInj enc) (hne : HNonEmpty H) (fx : Fixes) (hfx : fx.strictNodes = true)
+    (p : RangeProof) (t : Tree) (hw : WF t) (key : Bytes)
+    (h : absenceOpRun H enc fx (some p) key [] = .ok [Tree.hash H enc t]) :
+    (∀ e ∈ t.leaves, e.1 ≠ key) ∨ ∃ x y, x ≠ y ∧ H x = H y :=
+  absence_sound' H enc hinj hne fx hfx p t hw key h
+
+/-- the hypotheses are satisfiable: an injective layout exists, and the theorem applies to the honest proof -/
+example : EncInj encToy ∧ KVInj encKVToy := ⟨encToy_inj, encKVToy_inj⟩
+example (H : Bytes → Bytes) (hne : HNonEmpty H) :
+    ∃ p, valueOpRun H encToy Fixes.all (some p) kb [[2]] = .ok [Tree.hash H encToy (t2 [1] [2])] := by
+  obtain ⟨p, _, h⟩ := value_complete' H encToy Fixes.all hne (t2 [1] [2]) (wf_t2 _ _) kb [2] (by decide) (by decide)
+  exact ⟨p, h⟩
+
+/-- The underlying structural fact: a proof whose recomputed root is the tree's root hash lists a
+contiguous run of the tree's leaves. -/
+theorem range_proof_sound (hinj : EncInj enc) (hne : HNonEmpty H) (fx : Fixes) (hfx : fx.strictNodes = true)
+    (p : RangeProof) (t : Tree) (hw : WF t) (te : Bool)
+    (h : computeRootHash H enc fx p = .ok (Tree.hash H enc t, te)) :
+    Collision H ∨ ∃ pre post, pl H t = pre ++ p.leaves ++ post ∧
+      (isLeftmost p.leftPath = true → pre = []) ∧
+      (isRightmost p.leftPath = true → post = [] ∧ p.leaves.length = 1) ∧ (te = true → post = []) :=
+  range_sound H enc hinj hne fx hfx p t hw te h
+
+/-! ## The code as it is: forgeries -/
+
+/-- **value_sound fails as is**: for every hash function without collisions an accepted existence
+proof states a pair the tree does not store (inner node with both child hashes + an extra leaf). -/
+theorem value_sound_fails (hne : HNonEmpty H) (hnc : ¬ ∃ x y, x ≠ y ∧ H x = H y) :
+    ¬ ∀ (p : RangeProof) (t : Tree) (key value : Bytes), WF t →
+        valueOpRun H enc Fixes.none (some p) key [value] = .ok [Tree.hash H enc t] →
+        (∃ ver, (key, value, ver) ∈ t.leaves) ∨ ∃ x y, x ≠ y ∧ H x = H y := by
+  intro hall
+  obtain ⟨h1, h2⟩ := value_forged_bothset H (enc := enc) hne [1] [2] [3]
+  rcases hall _ _ _ _ (wf_t2 _ _) h1 with ⟨ver, hm⟩ | c
+  · exact h2 _ hm rfl
+  · exact hnc c
+
+/-- **absence_sound fails as is** (both child hashes): a stored key is proved absent. -/
+theorem absence_forged_both_hashes (hne : HNonEmpty H) (va vb vc vf : Bytes) :
+    absenceOpRun H enc Fixes.none
+      (some ⟨[⟨2, 3, 1, [], Tree.hash H enc (.leaf kc vc 1)⟩,
+              ⟨1, 2, 1, Tree.hash H enc (.leaf ka va 1), PLeaf.hash H enc ⟨kd, H vf, 1⟩⟩], [[]],
+             [⟨kb, H vb, 1⟩, ⟨kd, H vf, 1⟩]⟩) kc []
+      = .ok [Tree.hash H enc (t3 va vb vc)] ∧ (kc, vc, 1) ∈ (t3 va vb vc).leaves :=
+  absence_forged_bothset H (enc := enc) hne va vb vc vf
+
+/-- **absence_sound fails as is** (inner path not leftmost): the stored key `b` is skipped. -/
+theorem absence_forged_inner_not_leftmost (hne : HNonEmpty H) (va vb vc : Bytes) :
+    absenceOpRun H enc Fixes.none
+      (some ⟨[⟨2, 3, 1, [], Tree.hash H enc (.inner 1 2 1 kc (.leaf kb vb 1) (.leaf kc vc 1))⟩],
+             [[⟨1, 2, 1, Tree.hash H enc (.leaf kb vb 1), []⟩]],
+             [⟨ka, H va, 1⟩, ⟨kc, H vc, 1⟩]⟩) kb []
+      = .ok [Tree.hash H enc (t4 va vb vc)] ∧ (kb, vb, 1) ∈ (t4 va vb vc).leaves :=
+  absence_forged_not_leftmost H (enc := enc) hne va vb vc
+
+/-- **value_sound fails as is** (leaf presented as inner node): a stored value that is the hash
+preimage of a leaf lets that leaf be "proved". -/
+theorem value_forged_leaf_presented_as_inner (hne : HNonEmpty H) (vf : Bytes) :
+    valueOpRun H enc Fixes.none (some ⟨[⟨0, 1, 1, ka, []⟩], [], [⟨kc, H vf, 1⟩]⟩) kc [vf]
+      = .ok [Tree.hash H enc (.leaf ka (enc 0 1 1 kc (H vf)) 1)] :=
+  value_forged_leaf_as_inner H (enc := enc) hne vf
+
+/-- the strict verifier rejects the three forged proofs above -/
+theorem forgeries_rejected_by_strict_verifier (hne : HNonEmpty H) (fx : Fixes) (hfx : fx.strictNodes = true)
+    (va vb vc vf : Bytes) :
+    (∃ e, valueOpRun H enc fx
+      (some ⟨[⟨1, 2, 1, Tree.hash H enc (.leaf ka va 1), PLeaf.hash H enc ⟨kc, H vf, 1⟩⟩], [[]],
+             [⟨kb, H vb, 1⟩, ⟨kc, H vf, 1⟩]⟩) kc [vf] = .error e) ∧
+    (∃ e, absenceOpRun H enc fx
+      (some ⟨[⟨2, 3, 1, [], Tree.hash H enc (.inner 1 2 1 kc (.leaf kb vb 1) (.leaf kc vc 1))⟩],
+             [[⟨1, 2, 1, Tree.hash H enc (.leaf kb vb 1), []⟩]],
+             [⟨ka, H va, 1⟩, ⟨kc, H vc, 1⟩]⟩) kb [] = .error e) ∧
+    (∃ e, valueOpRun H enc fx (some ⟨[⟨0, 1, 1, ka, []⟩], [], [⟨kc, H vf, 1⟩]⟩) kc [vf] = .error e) :=
+  forgeries_rejected_strict H (enc := enc) hne fx hfx va vb vc vf
+
+/-! ## Multistore -/
+
+/-- **multistore_sound.** If the proof names every store at most once (`NoDupNames`) — or the repaired
+`Run` rejects duplicates — an accepted `(name, value)` against the hash of the committed `StoreInfo`s
+is the committed root of that store, or a collision is exhibited. -/
+theorem multistore_sound (hne : HNonEmpty H) (hlen : HLen H) (hkv : KVInj encKV) (fx : Fixes)
+    (proofInfos real : List StoreInfo) (name value : Bytes)
+    (hnd : fx.dupNames = true ∨ (proofInfos.map (·.name)).Nodup)
+    (h : multiStoreRun H encKV fx proofInfos name [value] = .ok [commitHash H encKV real]) :
+    (∃ si ∈ real, si.name = name ∧ si.hash = value) ∨ ∃ x y, x ≠ y ∧ H x = H y :=
+  multistore_sound' H encKV hne hlen hkv fx proofInfos real name value hnd h
+
+/-- **multistore_dup_forges** (as is): two `StoreInfo`s with one name — `Run` checks the first, the
+hash keeps the last — prove any value under the honest root, for every hash function. -/
+theorem multistore_dup_forges (name real forged : Bytes) (ver : Int) :
+    multiStoreRun H encKV Fixes.none [⟨name, ver, forged⟩, ⟨name, ver, real⟩] name [forged]
+      = .ok [commitHash H encKV [⟨name, ver, real⟩]] :=
+  multistore_dup_forges' H encKV name real forged ver
+
+/-- with the repair the same op is rejected -/
+theorem multistore_dup_rejected (fx : Fixes) (hfx : fx.dupNames = true) (name real forged : Bytes) (ver : Int) :
+    multiStoreRun H encKV fx [⟨name, ver, forged⟩, ⟨name, ver, real⟩] name [forged] = .error .invalidProof := by
+  simp [multiStoreRun, hfx]
 
 end C05
